@@ -43,6 +43,10 @@ class _dtype_value_context:
     def __enter__(
         self,
     ):
+        # Snapshot on entry (not construction), so that exit restores what was in force just before entry
+        self._orig_float_value = self.__class__.value(dtype=torch.float)
+        self._orig_double_value = self.__class__.value(dtype=torch.double)
+        self._orig_half_value = self.__class__.value(dtype=torch.half)
         self.__class__._set_value(
             self._instance_float_value,
             self._instance_double_value,
@@ -50,7 +54,10 @@ class _dtype_value_context:
         )
 
     def __exit__(self, *args):
-        self.__class__._set_value(self._orig_float_value, self._orig_double_value, self._orig_half_value)
+        # Restore unconditionally: a previous value of None (unset) must be restored, too
+        self.__class__._global_float_value = self._orig_float_value
+        self.__class__._global_double_value = self._orig_double_value
+        self.__class__._global_half_value = self._orig_half_value
         return False
 
 
@@ -85,6 +92,8 @@ class _feature_flag:
         self.state = state
 
     def __enter__(self):
+        # Snapshot on entry (not construction), so that exit restores what was in force just before entry
+        self.prev = self.__class__._state
         self.__class__._set_state(self.state)
 
     def __exit__(self, *args):
@@ -110,6 +119,8 @@ class _value_context:
     def __enter__(
         self,
     ):
+        # Snapshot on entry (not construction), so that exit restores what was in force just before entry
+        self._orig_value = self.__class__.value()
         self.__class__._set_value(self._instance_value)
 
     def __exit__(self, *args):
